@@ -16,6 +16,7 @@ from engines.shadowsym.core import Engine, Inconclusive  # noqa: E402
 from engines.shadowsym.proxies import SymChar, SymInt, SymStr, is_space_term  # noqa: E402
 from engines.shadowsym import driver  # noqa: E402
 from lib import checklib  # noqa: E402
+from harness import cfg_common as cc  # noqa: E402
 
 PID = "C13"
 TAB, FF, CR, NL = 9, 12, 13, 10
@@ -673,6 +674,8 @@ def long_library(n, cl, fl):
                          "+dimension(count_argument_name_that_is_long)+deref(pointer)+owner(caller)" % nm},
                 {"decl": "const std::string %s_r1(int selector_argument_name_that_is_long)" % nm},
                 {"decl": "const std::string &%s_r2(int selector_argument_name_that_is_long) +deref(allocatable)" % nm},
+                {"decl": "int %s_pu(int selector_argument_name_that_is_long, double weight_argument_name_that_is_long) +pure" % nm},
+                {"decl": "void %s_b2(bool logical_argument_name_that_is_long, bool *result_argument_name_that_is_long +intent(out))" % nm},
                 {"decl": "void %s_a1(int *array_argument_name_that_is_long +intent(out)+dimension(extent_argument_name_long), int extent_argument_name_long)" % nm},
             ]]}
 
@@ -702,7 +705,7 @@ class FilesHarness(object):
         self.n = NAME_LENGTHS[e.choose(vi)]
         self.cl, self.fl = LEN_CONFIGS[e.choose(vj)]
         run_ = lambda cl, fl: {f: "".join(p) for f, p in pipeline.run(long_library(self.n, cl, fl)).files.items()}
-        return run_(self.cl, self.fl), run_(72, self.fl), run_(self.cl, 72)
+        return run_(self.cl, self.fl), run_(72, self.fl), run_(self.cl, 72), run_(WIDE, WIDE)
 
     def witness(self, what):
         return {"kind": "files", "name_length": self.n, "C_line_length": self.cl, "F_line_length": self.fl, "what": what}
@@ -719,8 +722,82 @@ class FilesHarness(object):
         return {"cls": cls, "sample": self.witness(None)}
 
 
+WIDE = 100000        # a line length at which nothing is ever broken
+
+
+def fortran_statements(text):
+    """The statements of a free-form Fortran file as a Fortran processor reads them: the comment is cut from every line
+    (character literals respected), comment and blank lines are dropped - also between a continued line and its
+    continuation, where the standard lets them stand -, a line ending in & goes on with the next remaining line (a leading
+    & there is dropped), blanks are removed (they are insignificant at break points and the two layouts put them
+    differently)."""
+    lines = []
+    for ln in text.split("\n"):
+        if ln.startswith("#"):
+            lines.append(ln.strip())          # preprocessor line
+            continue
+        out, q = [], None
+        for ch in ln:
+            if q:
+                out.append(ch)
+                if ch == q:
+                    q = None
+            elif ch in "'\"":
+                q = ch
+                out.append(ch)
+            elif ch == "!":
+                break
+            else:
+                out.append(ch)
+        t = "".join(out).strip()
+        if t:
+            lines.append(t)
+    stmts, cur = [], None
+    for t in lines:
+        if cur is not None:
+            if t.startswith("#"):
+                stmts.append(cur + " <continued into a preprocessor line>")
+                cur = None
+            else:
+                t = t[1:] if t.startswith("&") else t
+                t = cur + t
+                cur = None
+        if t.endswith("&") and not t.startswith("#"):
+            cur = t[:-1]
+            continue
+        stmts.append(t if t.startswith("#") else "".join(t.split()))
+    if cur is not None:
+        stmts.append(cur + " <continued past the end>")
+    return stmts
+
+
+def c_family_tokens(f, text):
+    return cc.strip_comments(f, text)
+
+
 def files_verdict(value, cl, fl):
-    got, same_f, same_c = value
+    got, same_f, same_c, wide = value
+    for f, t in sorted(got.items()):
+        bad = [c for c in t if ord(c) < 32 and c != "\n"]
+        if bad:
+            k = t.index(bad[0])
+            return "%s holds the control character %r (a layout directive written into the text): %r" % (
+                os.path.basename(f), bad[0], t[max(0, k - 30):k + 20])
+    # the code does not depend on where lines are broken: the statements a Fortran processor reads (the token stream of a
+    # C-family file) are those of the same run with a line length at which nothing is broken
+    for f, t in sorted(got.items()):
+        k = file_kind(f)
+        if f not in wide:
+            return "%s is written at the line lengths (%d, %d) but not at unlimited length" % (os.path.basename(f), cl, fl)
+        if k == "fortran":
+            a, b = fortran_statements(t), fortran_statements(wide[f])
+            if a != b:
+                i = next((j for j in range(min(len(a), len(b))) if a[j] != b[j]), min(len(a), len(b)))
+                return "%s read as Fortran differs from the unbroken file at statement %d: %r vs %r" % (
+                    os.path.basename(f), i, (a[i] if i < len(a) else None), (b[i] if i < len(b) else None))
+        elif k == "c-family":
+            if c_family_tokens(f, t) != c_family_tokens(f, wide[f]):
+                return "%s: the code (comments removed, blanks ignored) differs from the unbroken file" % os.path.basename(f)
     for f, t in sorted(got.items()):
         if file_kind(f) == "fortran":
             for k, ln in enumerate(t.split("\n")):
@@ -742,7 +819,7 @@ def make_files(**kw):
 def confirm_files(w):
     from gen import pipeline
     run_ = lambda cl, fl: {f: "".join(p) for f, p in pipeline.run(long_library(w["name_length"], cl, fl)).files.items()}
-    return files_verdict((run_(w["C_line_length"], w["F_line_length"]), run_(72, w["F_line_length"]), run_(w["C_line_length"], 72)),
+    return files_verdict((run_(w["C_line_length"], w["F_line_length"]), run_(72, w["F_line_length"]), run_(w["C_line_length"], 72), run_(WIDE, WIDE)),
                          w["C_line_length"], w["F_line_length"])
 
 
